@@ -55,6 +55,11 @@ impl Call {
             Call::LeavesSet => json!({"c":"leaves_set"}),
         }
     }
+    /// for messages: like `to_json`, payloads longer than 48 bytes abbreviated
+    fn brief(&self) -> String {
+        let t = self.to_json().to_string();
+        if t.len() > 160 { format!("{}.. ({} characters)", &t[..120], t.len()) } else { t }
+    }
     fn from_json(v: &Value) -> Option<Call> {
         let i = || v["i"].as_u64().map(|x| x as usize);
         let b = || v["b"].as_str().map(unhex);
@@ -132,9 +137,17 @@ fn buf(b: &[u8]) -> Buffer {
     Buffer { ptr: b.as_ptr(), len: b.len() }
 }
 /// reads an output buffer filled by the FFI; the sentinel tells whether it was written at all
+/// what an output buffer holds before a call: a callee that reports success must have replaced it
+static POISON: [u8; 5] = *b"STALE";
+fn poisoned() -> Buffer {
+    Buffer { ptr: POISON.as_ptr(), len: POISON.len() }
+}
 fn take(ok: bool, ob: &Buffer) -> Out {
     if !ok {
         return Out { ok: false, bytes: None, n: None };
+    }
+    if ob.ptr == POISON.as_ptr() {
+        return Out { ok: true, bytes: Some(b"<success reported, output buffer left as it was>".to_vec()), n: None };
     }
     let bytes = if ob.len == 0 { vec![] } else if ob.ptr.is_null() { vec![0xEE] } else { unsafe { std::slice::from_raw_parts(ob.ptr, ob.len) }.to_vec() };
     Out { ok: true, bytes: Some(bytes), n: None }
@@ -143,7 +156,7 @@ fn take(ok: bool, ob: &Buffer) -> Out {
 /// the C surface
 fn call_ffi(ctx: *mut RLN, c: &Call) -> Out {
     let flag = |ok: bool| Out { ok, bytes: None, n: None };
-    let mut ob = Buffer { ptr: std::ptr::null(), len: 0 };
+    let mut ob = poisoned();
     match c {
         Call::SetLeaf(i, b) => flag(ffi::set_leaf(ctx, *i, &buf(b))),
         Call::DeleteLeaf(i) => flag(ffi::delete_leaf(ctx, *i)),
@@ -247,14 +260,14 @@ impl C11 {
                 Ok(o) => o,
                 Err(p) => {
                     // the Rust API itself panics on this call: not part of the lockstep domain
-                    return (out, Some(format!("{} (after {} calls): {}", c.to_json(), k, panic_site(&p))));
+                    return (out, Some(format!("{} (after {} calls): {}", c.brief(), k, panic_site(&p))));
                 }
             };
             let oa = call_ffi(pair.ctx, c);
             if oa.ok != ob.ok {
-                out.push(d(format!("C11/{}/flag-differs", c.name()), format!("call {k} {}: FFI reports {} but the Rust API returned {}", c.to_json(), oa.ok, if ob.ok { "Ok" } else { "Err" })));
+                out.push(d(format!("C11/{}/flag-differs", c.name()), format!("call {k} {}: FFI reports {} but the Rust API returned {}", c.brief(), oa.ok, if ob.ok { "Ok" } else { "Err" })));
             } else if oa.bytes != ob.bytes {
-                out.push(d(format!("C11/{}/output-differs", c.name()), format!("call {k} {}: FFI buffer {:?} vs Rust output {:?}", c.to_json(), oa.bytes.as_ref().map(|b| hex(&b[..b.len().min(40)])), ob.bytes.as_ref().map(|b| hex(&b[..b.len().min(40)])))));
+                out.push(d(format!("C11/{}/output-differs", c.name()), format!("call {k} {}: FFI buffer {:?} vs Rust output {:?}", c.brief(), oa.bytes.as_ref().map(|b| hex(&b[..b.len().min(40)])), ob.bytes.as_ref().map(|b| hex(&b[..b.len().min(40)])))));
             } else if oa.n != ob.n {
                 out.push(d(format!("C11/{}/value-differs", c.name()), format!("call {k}: FFI {:?} vs Rust {:?}", oa.n, ob.n)));
             }
@@ -262,11 +275,11 @@ impl C11 {
             let sb = match state_rust(&mut pair.b) { Ok(s) => s, Err(p) => return (out, Some(format!("state read panicked: {p}"))) };
             if sa != sb {
                 let what = if sa.root != sb.root { "root" } else if sa.leaves != sb.leaves { "leaves" } else if sa.n != sb.n { "leaf count" } else { "metadata" };
-                out.push(d(format!("C11/{}/state-diverges", c.name()), format!("after call {k} {}: {what} differs between the FFI context and the Rust instance", c.to_json())));
+                out.push(d(format!("C11/{}/state-diverges", c.name()), format!("after call {k} {}: {what} differs between the FFI context and the Rust instance", c.brief())));
                 break;
             }
             if !oa.ok && !matches!(c, Call::Init(_)) && sa != pre {
-                out.push(d(format!("C11/{}/failed-call-changed-state", c.name()), format!("call {k} {} reported failure but the context changed", c.to_json())));
+                out.push(d(format!("C11/{}/failed-call-changed-state", c.name()), format!("call {k} {} reported failure but the context changed", c.brief())));
             }
         }
         (out, None)
@@ -301,7 +314,7 @@ impl C11 {
             }
             ffi::set_leaf(pair.ctx, r.index as usize, &buf(&rate));
             if r.ctx == 3 { ffi::delete_leaf(pair.ctx, nb); }
-            let mut ob = Buffer { ptr: std::ptr::null(), len: 0 };
+            let mut ob = poisoned();
             let ok = ffi::get_root(pair.ctx, &mut ob);
             if take(ok, &ob).bytes != Some(codec::fr(&s.root)) {
                 out.push(d("get_root/output-differs", "roots differ after the same set-up through both surfaces".into()));
@@ -387,7 +400,13 @@ impl C11 {
             let mut r2 = r.clone();
             r2.signal = b"another".to_vec();
             if let PResult::Ok(m2) = prove_via(&mut pair.b, &r2, &s, Entry::Tree, false) {
-                for (x, y, nm) in [(&ma, &m2, "two-signals"), (&ma, &ma, "same-message"), (&ma[..200].to_vec(), &m2, "short-first")] {
+                // (the output buffer is NOT reset between these calls: after a recovery that wrote a secret, a recovery
+                // across epochs must replace it by an empty output)
+                let mut r3 = r.clone();
+                r3.ext = &r.ext + big(1);
+                r3.signal = b"third".to_vec();
+                let m3 = match prove_via(&mut pair.b, &r3, &s, Entry::Tree, false) { PResult::Ok(m) => m, _ => ma.clone() };
+                for (x, y, nm) in [(&ma, &m2, "two-signals"), (&ma, &m3, "different-epochs"), (&ma, &m2, "two-signals-again"), (&ma, &ma, "same-message"), (&ma[..200].to_vec(), &m2, "short-first")] {
                     let ok = ffi::recover_id_secret(pair.ctx, &buf(x), &buf(y), &mut ob);
                     let oa = take(ok, &ob);
                     let rb = guard(|| { let mut o = Cursor::new(vec![]); pair.b.recover_id_secret(rd(x), rd(y), &mut o).map(|_| o.into_inner()) });
@@ -468,7 +487,7 @@ impl C11 {
                 }
                 if fa && !ctx.is_null() {
                     if let Ok(b) = rb {
-                        let mut ob = Buffer { ptr: std::ptr::null(), len: 0 };
+                        let mut ob = poisoned();
                         let ok = ffi::get_root(ctx, &mut ob);
                         let mut o = Cursor::new(vec![]);
                         let _ = b.get_root(&mut o);
@@ -574,6 +593,11 @@ impl Prop for C11 {
             }
             seqs.extend(next.iter().cloned());
             cur = next;
+        }
+        // payload sizes: metadata of 255 .. 2^20 bytes stored and read back through both surfaces
+        for n in [255usize, 256, 257, 4095, 4096, 4097, 65_535, 65_536, 65_537, 1 << 20] {
+            let big_meta: Vec<u8> = (0..n).map(|k| (k % 251) as u8).collect();
+            seqs.push(vec![Call::SetMeta(big_meta), Call::GetMeta, Call::SetMeta(b"m".to_vec()), Call::GetMeta]);
         }
         let chunks: Vec<&[Vec<Call>]> = seqs.chunks(64).collect();
         let res = par_map(&chunks, ncpu(), |_, ch| -> Result<(Vec<Discrepancy>, Vec<String>, u64, std::collections::BTreeSet<String>), String> {
